@@ -26,7 +26,7 @@ def run(pid, argv, want=None):
     # fixed shapes the random generator rarely produces: a multi-client port declared before other provides ports (odd event
     # names, valued release), requires ports whose semantics alternate in declaration order, an injected port
     from checks.c11 import fixed_cases
-    cases += fixed_cases() + SR.mixed_semantics_cases(('MSM', 'SMS')) + SR.prefix_name_cases()[:1 if tier == 'quick' else 3]
+    cases += fixed_cases() + SR.mixed_semantics_cases(('MSM', 'SMS')) + (SR.prefix_name_cases()[:1] + SR.prefix_name_cases()[3:4] if tier == 'quick' else SR.prefix_name_cases())
     suspects, breadth = SR.leg_a_suspects(rng, 100 if tier == 'quick' else 1500, want=want)
     rep.extra['cases_compared_with_the_model_only'] = breadth
     cases += suspects
